@@ -381,6 +381,14 @@ func work(ctx *runner.Ctx) {
 			}
 		}
 	}
+	// (h) large circuits: more than 65536 wires and gates in one whole-circuit session
+	bigp := "package main\nfunc main(a uint256, b uint256) (uint256, bool) {\n\treturn a * b, a > b\n}\n"
+	for i, o := range []string{"co", "cot", "ideal"} {
+		if quick && i == 1 {
+			continue
+		}
+		cases = append(cases, cs{Src: bigp, G: "115792089237316195423570985008687907853269984665640564039457584007913129639935", E: "98765432109876543210987654321098765432109876543210", OT: o, Regime: "all", Seed: seed})
+	}
 	ctx.Note(fmt.Sprintf("case list: %d sessions", len(cases)))
 	for i, k := range cases {
 		if !ctx.Mine(i) {
